@@ -47,7 +47,16 @@ class GetUiAttestation(Contract):
         return (ans(g, old, 1 + pages)[3] == 0
                 and forall_int(0, pages - 1, lambda k: ans(g, old, 2 + k)[3] != 0))
     ensures = [exchange_sequence, answers_verbatim, message_is_the_pages_in_order, last_page_is_flagged_last]
-    raises = {"Exception": Exc()}
+
+    # gathering from a genuine device must SUCCEED: an exception is allowed only for a reason - the UD value is not hex,
+    # an exchange failed, a page answer is too short to carry its flag, or the device still flags "more" on its fourth page
+    def only_for_a_reason(ud_value_hex, g, old):
+        n = g.nx - old.g.nx
+        return (not is_hex(ud_value_hex) or classify(g) != K_OK
+                or (n >= 3 and len(g.last_resp) < 4)        # a page answer without its "more" flag: not a genuine device
+                or (n == 6 and ok(g) and ans(g, old, 2)[3] != 0 and ans(g, old, 3)[3] != 0 and ans(g, old, 4)[3] != 0
+                    and ans(g, old, 5)[3] != 0))
+    raises = {"Exception": Exc(post=[only_for_a_reason])}
 
 
 # ------------------------------------------------------------------------------------------ the Ledger attestation command
